@@ -289,9 +289,18 @@ def finite_difference_pair(ref, c, velocity, separation):
                     h = room / 4.0
         if h < 1e-9 * r / speed:
             return None
-    plus = pair_energy_vector(ref, c, [s - v * h for s, v in zip(separation, velocity)])
-    minus = pair_energy_vector(ref, c, [s + v * h for s, v in zip(separation, velocity)])
-    return (plus - minus) / (2.0 * h)
+    def central(step):
+        plus = pair_energy_vector(ref, c, [s - v * step for s, v in zip(separation, velocity)])
+        minus = pair_energy_vector(ref, c, [s + v * step for s, v in zip(separation, velocity)])
+        return (plus - minus) / (2.0 * step), max(abs(plus), abs(minus))
+
+    coarse, magnitude = central(h)
+    fine, _ = central(h / 2.0)
+    # Richardson extrapolation; the difference of the two estimates bounds the truncation error, the second term the
+    # cancellation error of the energy difference
+    value = fine + (fine - coarse) / 3.0
+    error = abs(fine - coarse) + 8e-16 * magnitude / h
+    return value, error
 
 
 def bending_energy(k, phi0, s1, s2):
